@@ -384,3 +384,23 @@ func VH_C15_desc_count() {
 	vrt.Assert(len(back) == 1 && len(back[0].Parameters) == n, "all parameters of the one description are recovered")
 	vrt.Equal(back[0].Parameters, d.Parameters, "many parameters round-trip")
 }
+
+// lists whose serialisation approaches the 16-bit length of the element: thousands of rules without filters
+// (6 octets each) around 32767 and 65535 octets. Fields of the first and last rule symbolic.
+func VH_C15_rules_large() {
+	vrt.Unwind(12000)
+	n := []int{5461, 5462, 10922}[vrt.Choose("nClass", 0, 2)] // 32766, 32772, 65532 octets
+	rules := make(QoSRules, n)
+	for i := range rules {
+		rules[i] = QoSRule{Identifier: byte(i), Operation: OperationCodeDeleteExistingQoSRule, Precedence: byte(i >> 8), QFI: byte(i) & 63}
+	}
+	rules[0].Identifier, rules[0].Precedence = vrt.U8("id0"), vrt.U8("p0")
+	rules[n-1].Identifier, rules[n-1].QFI = vrt.U8("idN"), vrt.U8("qN")&63
+	out, err := rules.MarshalBinary()
+	vrt.Assert(err == nil, "a rule list that fits the 16-bit element length is serialised")
+	vrt.Assert(len(out) == 6*n, "six octets per rule without filters")
+	vrt.Assert(out[0] == rules[0].Identifier && out[4] == rules[0].Precedence && out[6*(n-1)] == rules[n-1].Identifier && out[6*n-1] == rules[n-1].QFI, "first and last rule at their positions")
+	var back QoSRules
+	vrt.Assert(back.UnmarshalBinary(out) == nil && len(back) == n, "the long list parses back with every rule")
+	vrt.Assert(back[n-1].Identifier == rules[n-1].Identifier && back[n-1].QFI == rules[n-1].QFI && back[0].Precedence == rules[0].Precedence, "rules of a long list round-trip")
+}
